@@ -3,7 +3,9 @@ package main
 // Area "hclyaml", round 6: what happens to the TEXT of a file between `io.ReadAll` and the parser.
 //
 //	hclTextSteps   ParseHCLFile: the chain of calls the first argument of `ParseHCL` goes through, innermost first, starting at
-//	               io.ReadAll: (callee, constant string arguments).  Conversions (`string(b)`, `[]byte(s)`) are dropped,
+//	               io.ReadAll (whose one argument is "param:<i>" when it is the function's own parameter — the WHOLE file is
+//	               read, no io.LimitReader, no buffered / section reader in between — and the expression otherwise):
+//	               (callee, constant string arguments).  Conversions (`string(b)`, `[]byte(s)`) are dropped,
 //	               re-assignments of a local are followed in source order, a helper of the same package whose body is a
 //	               single `return <expr of its one parameter>` is inlined.  A re-assignment inside a branch / loop adds
 //	               the step "<conditional>", anything the extractor does not read a step "<expr:…>".
@@ -130,7 +132,24 @@ func hyR6Walk(p *packages.Package, fd *ast.FuncDecl, e ast.Expr, pos token.Pos, 
 		}
 		name := hyCalleeName(p, x)
 		if name == "io.ReadAll" || name == "ioutil.ReadAll" {
-			return []hyR6Step{{"io.ReadAll", nil}}
+			// what is read: the function's own parameter ("param:<index>": the whole file, no limit, no wrapper) or
+			// anything else, spelled out (io.LimitReader(file, n), bufio.NewReader(file), a section reader …)
+			src := "<none>"
+			if len(x.Args) == 1 {
+				src = hyNodeString(p, x.Args[0])
+				if o := hyObj(p, x.Args[0]); o != nil && fd.Type.Params != nil {
+					i := 0
+					for _, f := range fd.Type.Params.List {
+						for _, nm := range f.Names {
+							if p.TypesInfo.Defs[nm] == o {
+								src = fmt.Sprintf("param:%d", i)
+							}
+							i++
+						}
+					}
+				}
+			}
+			return []hyR6Step{{"io.ReadAll", []string{src}}}
 		}
 		var consts []string
 		var flowing []ast.Expr
